@@ -215,18 +215,6 @@ def fn_entry(cin, out, full_provided):
     return (c1, c2, c3, c4, code_level(find_level(out['agg_report_foreign'], cin['cat'], cin['title'])))
 
 
-def unpack_row(n):
-    """Check.C04Check.pack_row: 64 cases x ENTRY base-64 digits behind a leading 1"""
-    digits = []
-    for _ in range(64 * ENTRY):
-        digits.append(n & 63)
-        n >>= 6
-    if n != 1:
-        raise RuntimeError('malformed table row')
-    digits.reverse()
-    return [tuple(digits[i:i + ENTRY]) for i in range(0, len(digits), ENTRY)]
-
-
 def c_rules_map(m):
     return clist('(%s, %s)' % (cstr(c), clist('(%s, %s)' % (cstr(t), cstr(l or '')) for t, l in sorted(rs.items())))
                  for c, rs in sorted((m or {}).items()))
@@ -359,74 +347,102 @@ def run(ctx):
     ex_ok = [r for r in ex if not r['out'].get('err')]
     lint_cases = [r for r in ex_ok if r['in']['lint']]
     fnonly_cases = [r for r in ex_ok if not r['in']['lint']]
-    chunk_names = ['tbl_%d_%d_%s' % (k, p, u) for k, p in GROUPS for u in ('0', '1', '2', '3', '4', 'nu')]
-    v = ['From Coq Require Import String.', 'From Regal Require Import Check.C04Check Check.C04Table Gen.RulesTable.',
-         'Open Scope N_scope.', 'Set Printing Depth 100000000.']
-    v.append('Definition H_bundled : list (str * str) := ' + clist('(%s, %s)' % (cstr(c), cstr(t)) for c, t in names.pairs) + '.')
-    CH = 40
-    for k in range(0, len(lint_cases), CH):
-        v.append('Definition l_%d : list lcase := %s.' % (k // CH, clist(c_lcase(names, agg_rules, r['in'], r['out']) for r in lint_cases[k:k + CH])))
-    v.append('Definition l_cases : list lcase := ' + ' ++ '.join(['l_%d' % (k // CH) for k in range(0, len(lint_cases), CH)] + ['[]']) + '.')
-    v.append('Definition e_cases : list ecase := ' + clist(c_ecase(r['in'], r['out']) for r in fnonly_cases) + '.')
-    v += ['Definition T0 := Eval vm_compute in (if pairs_eqb H_bundled bundled_rules then [1] else [0])%nat.',
-          'Definition L1 := Eval vm_compute in failing lcase_agrees 0 l_cases.',
-          'Definition L2 := Eval vm_compute in failing (fun l => case_meets_spec (lcase_full_ok l) && lint_meets_spec l) 0 l_cases.',
-          'Definition L3 := Eval vm_compute in failing enabled_is_runnable 0 l_cases.',
-          'Definition L4 := Eval vm_compute in failing enabled_agg_is_reporting 0 l_cases.',
-          'Definition E1 := Eval vm_compute in failing case_agrees 0 e_cases.',
-          'Definition E2 := Eval vm_compute in failing case_meets_spec 0 e_cases.',
-          'Print T0. Print L1. Print L2. Print L3. Print L4. Print E1. Print E2.']
-    # self-test of the glue: a case whose observation is perturbed must be flagged by the comparison
-    if lint_cases:
-        pr = json.loads(json.dumps(lint_cases[0]))
-        pr['out']['ignored'] = not pr['out']['ignored']
-        v += ['Definition S1 := Eval vm_compute in failing lcase_agrees 0 [%s].' % c_lcase(names, agg_rules, pr['in'], pr['out']), 'Print S1.']
-    # only the chunks this tier visits are printed
-    visited = {(r['code']['k'], r['code']['p']) for r in fn_ok}
-    chunk_names = [n for n in chunk_names if tuple(int(x) for x in n.split('_')[1:3]) in visited]
-    if fn_ok:
-        v += ['Print %s.' % n for n in chunk_names]
-    rc, cout = vlib.coq_eval(ctx, 'Cases_C04', '\n'.join(v), timeout=2400)
-    if rc != 0:
-        raise RuntimeError('case evaluation failed:\n' + cout[-3000:])
+    # The case data is evaluated by several coqc processes side by side (Coq reads literals at ~15 KB/s: one process would
+    # spend more than 20 s on them): NL shards of Lint cases, NF shards of the exhaustive function-level table.
+    hdr = ['From Coq Require Import String.', 'From Regal Require Import Check.C04Check Check.C04Table Gen.RulesTable.',
+           'Open Scope N_scope.', 'Set Printing Depth 100000000.']
+    hb = 'Definition H_bundled : list (str * str) := ' + clist('(%s, %s)' % (cstr(c), cstr(t)) for c, t in names.pairs) + '.'
+    shards = []           # (name, text)
+    NL = (4 if len(lint_cases) <= 400 else 8) if len(lint_cases) > 60 else 1
+    per = (len(lint_cases) + NL - 1) // NL if lint_cases else 1
+    lint_shards = []      # (name, offset)
+    for si in range(NL):
+        part = lint_cases[si * per:(si + 1) * per]
+        if not part and si > 0:
+            continue
+        v = hdr + [hb]
+        CH = 40
+        for k in range(0, len(part), CH):
+            v.append('Definition l_%d : list lcase := %s.' % (k // CH, clist(c_lcase(names, agg_rules, r['in'], r['out']) for r in part[k:k + CH])))
+        v.append('Definition l_cases : list lcase := ' + ' ++ '.join(['l_%d' % (k // CH) for k in range(0, len(part), CH)] + ['[]']) + '.')
+        v += ['Definition L1 := Eval vm_compute in failing lcase_agrees 0 l_cases.',
+              'Definition L2 := Eval vm_compute in failing (fun l => case_meets_spec (lcase_full_ok l) && lint_meets_spec l) 0 l_cases.',
+              'Definition L3 := Eval vm_compute in failing enabled_is_runnable 0 l_cases.',
+              'Definition L4 := Eval vm_compute in failing enabled_agg_is_reporting 0 l_cases.',
+              'Print L1. Print L2. Print L3. Print L4.']
+        if si == 0:
+            v.append('Definition e_cases : list ecase := ' + clist(c_ecase(r['in'], r['out']) for r in fnonly_cases) + '.')
+            v += ['Definition T0 := Eval vm_compute in (if pairs_eqb H_bundled bundled_rules then [1] else [0])%nat.',
+                  'Definition E1 := Eval vm_compute in failing case_agrees 0 e_cases.',
+                  'Definition E2 := Eval vm_compute in failing case_meets_spec 0 e_cases.',
+                  'Print T0. Print E1. Print E2.']
+            # self-test of the glue: a case whose observation is perturbed must be flagged by the comparison
+            if lint_cases:
+                pr = json.loads(json.dumps(lint_cases[0]))
+                pr['out']['ignored'] = not pr['out']['ignored']
+                v += ['Definition S1 := Eval vm_compute in failing lcase_agrees 0 [%s].' % c_lcase(names, agg_rules, pr['in'], pr['out']), 'Print S1.']
+        lint_shards.append(('Cases_C04_l%d' % si, si * per))
+        shards.append(('Cases_C04_l%d' % si, '\n'.join(v)))
+    # exhaustive function level: the table Coq computed from the model (Check/C04Table.v) against what /repo did, compared
+    # inside Coq chunk by chunk (only the chunks this tier visits); a case the harness could not run fails everywhere
+    slots = {fn_index(r['code']): i for i, r in enumerate(fn_ok)}
+    chunks = []           # (name, has_report, has_agg, observed string, fn_ok indices)
+    for gi, (gk, gp) in enumerate(GROUPS):
+        for ui, u in enumerate(('0', '1', '2', '3', '4', 'nu')):
+            base, size = gi * 6464 + (6400 if u == 'nu' else ui * 1280), (64 if u == 'nu' else 1280)
+            if not any((base + j) in slots for j in range(size)):
+                continue
+            idx = [slots.get(base + j) for j in range(size)]
+            got = ''.join('~' * ENTRY if i is None else ''.join(chr(48 + x) for x in fn_entry(fn_ok[i]['in'], fn_ok[i]['out'], full_provided)) for i in idx)
+            chunks.append(('%d_%d_%s' % (gk, gp, u), gk != 2, gk != 0, got, idx))
+    NF = 5 if len(chunks) > 10 else 1
+    fn_shards = []        # (name, fn_ok indices in the order of the shard's cases)
+    for si in range(NF):
+        part = chunks[si::NF]
+        if not part:
+            continue
+        v = list(hdr)
+        for name, hr, ha, got, idx in part:
+            v.append('Definition obs_%s := "%s"%%string.' % (name, got))
+        terms = clist('(%s, %s, tbl_%s, obs_%s)' % (cbool(hr), cbool(ha), name, name) for name, hr, ha, got, idx in part)
+        v += ['Definition FN := Eval vm_compute in chunks_failing %s 0.' % terms,
+              'Definition F1 := Eval vm_compute in fst (fst FN).', 'Definition F2 := Eval vm_compute in snd (fst FN).',
+              'Definition F3 := Eval vm_compute in snd FN.',
+              'Definition FD := Eval vm_compute in [fold_left (fun a t => chunk_in_domain (snd (fst t)) a) %s 0].' % terms,
+              'Print F1. Print F2. Print F3. Print FD.']
+        fn_shards.append(('Cases_C04_f%d' % si, [i for c in part for i in c[4]]))
+        shards.append(('Cases_C04_f%d' % si, '\n'.join(v)))
+    from concurrent.futures import ThreadPoolExecutor
+    with ThreadPoolExecutor(max_workers=max(1, len(shards))) as ex_pool:
+        outs = dict(zip([n for n, _ in shards], ex_pool.map(lambda nt: vlib.coq_eval(ctx, nt[0], nt[1], timeout=2400), shards)))
+    for n, (rc, cout) in outs.items():
+        if rc != 0:
+            raise RuntimeError('case evaluation failed (%s):\n' % n + cout[-3000:])
     phase('coq_eval')
-    g = lambda m: vlib.parse_nat_list(cout, m) or []
-    t0, l1, l2, l3, l4, e1, e2 = g('T0'), g('L1'), g('L2'), g('L3'), g('L4'), g('E1'), g('E2')
-    if lint_cases and g('S1') != [0]:
+
+    def nats(n, m, required=True):
+        x = vlib.parse_nat_list(outs[n][1], m)
+        if x is None:
+            if required:
+                raise RuntimeError('%s: %s was not evaluated:\n%s' % (n, m, outs[n][1][-2000:]))
+            return []
+        return x
+    l1, l2, l3, l4 = ([off + i for n, off in lint_shards for i in nats(n, m)] for m in ('L1', 'L2', 'L3', 'L4'))
+    first = lint_shards[0][0] if lint_shards else None
+    t0, e1, e2 = ((nats(first, m) if first else []) for m in ('T0', 'E1', 'E2'))
+    if not first:
+        t0 = [1]
+    if lint_cases and nats(first, 'S1') != [0]:
         raise RuntimeError('self-test failed: a perturbed observation was not flagged by Check.C04Check.lcase_agrees')
-    # exhaustive function level: the table Coq computed from the model (Check/C04Table.v) against what /repo did
     f1, f2, fx, fn_in_domain = [], [], [], 0
     if fn_ok:
-        chunks = {n: [int(x) for x in re.findall(r'\d+', body)] for n, body in re.findall(r'(tbl_\w+) =\s*\[([^\]]*)\]', cout, re.S)}
-        table = {}
-        for gi, (gk, gp) in enumerate(GROUPS):
-            for ui, u in enumerate(('0', '1', '2', '3', '4', 'nu')):
-                rows = chunks.get('tbl_%d_%d_%s' % (gk, gp, u))
-                if rows is None:
-                    continue
-                if len(rows) != (1 if u == 'nu' else 20):
-                    raise RuntimeError('expected table chunk tbl_%d_%d_%s has %d rows' % (gk, gp, u, len(rows)))
-                base = gi * 6464 + (6400 if u == 'nu' else ui * 1280)
-                for ri, n in enumerate(rows):
-                    for fi, e in enumerate(unpack_row(n)):
-                        table[base + ri * 64 + fi] = e
-        for i, r in enumerate(fn_ok):
-            want = table[fn_index(r['code'])]
-            got = fn_entry(r['in'], r['out'], full_provided)
-            if got[:3] + got[4:] != want[:3] + want[4:]:
-                f1.append(i)                    # model and implementation disagree
-            if want[3] != 0:
-                fn_in_domain += 1
-                dec = want[3] - 1               # the README decision as Coq computes it: 0 off, else level code
-                has_report, has_agg = rule_kind(r['in'])
-                g1, g2, g4 = got[1], got[2], got[4]
-                ok = not has_report or g2 % 6 == dec                                  # main.report
-                if has_agg:                                                            # main.aggregate, main.aggregate_report (own / supplied)
-                    ok = ok and ((g1 // 12) % 2 == int(dec != 0)) and g2 // 6 == dec and g4 == dec
-                if not ok:
-                    f2.append(i)                # ... is not what /repo did
-            if got[3] != want[3]:
-                fx.append(i)                    # python's and Coq's reading of the README differ: glue bug
+        for n, order in fn_shards:
+            back = lambda m: [order[i] for i in nats(n, m) if i < len(order) and order[i] is not None]
+            f1 += back('F1')        # model and implementation disagree
+            f2 += back('F2')        # the README decision (as Coq computes it) is not what /repo's entry points did
+            fx += back('F3')        # python's and Coq's reading of the README differ: glue bug
+            fn_in_domain += nats(n, 'FD')[0]
+        f1, f2, fx = sorted(f1), sorted(f2), sorted(fx)
         if fx and not f2:
             raise RuntimeError('python and Coq specifications disagree on case %r' % fn_ok[fx[0]]['code'])
 
